@@ -212,9 +212,19 @@ int fiber_io_unlock_thread() {
   return FIBER_SUCCESS;
 }
 
+// true if fd indexes the descriptor table
+static inline int fd_in_range(int fd) {
+  return fd >= 0 && fd_info && (rlim_t)fd < max_fd;
+}
+
+// true if the descriptor is managed by the shim (created through socket(),
+// socketpair(), accept() or pipe())
+static inline int fd_is_waitable(int fd) {
+  return fd_in_range(fd) && (fd_info[fd].flags_ & IO_FLAG_WAITABLE);
+}
+
 static inline int should_block(int fd) {
-  assert(fd >= 0);
-  if (!thread_locked && fd_info && fd < max_fd &&
+  if (!thread_locked && fd_in_range(fd) &&
       fd_info[fd].flags_ & (IO_FLAG_BLOCKING | IO_FLAG_WAITABLE)) {
     return 1;
   }
@@ -608,9 +618,10 @@ int fcntl(int fd, int cmd, ...) {
   long val = va_arg(args, long);
   va_end(args);
 
-  if (!thread_locked) {
+  // descriptors the shim does not manage (including invalid ones) go to the
+  // real fcntl, which reports EBADF etc.
+  if (!thread_locked && fd_is_waitable(fd)) {
     if (cmd == F_SETFL && (val == O_NONBLOCK || val == O_NDELAY)) {
-      assert(fd < max_fd);
       atomic_fetch_and(&fd_info[fd].flags_, ~IO_FLAG_BLOCKING);
       assert(!(fd_info[fd].flags_ & IO_FLAG_BLOCKING));
       return 0;
@@ -634,12 +645,13 @@ int ioctl(IOCTLPARAMS) {
   void* val = va_arg(args, void*);
   va_end(args);
 
-  if (!thread_locked && request == FIONBIO) {
+  // descriptors the shim does not manage (including invalid ones) go to the
+  // real ioctl, which reports EBADF etc.
+  if (!thread_locked && request == FIONBIO && fd_is_waitable(d)) {
     if (!val) {
       errno = EINVAL;
       return -1;
     }
-    assert(d < max_fd);
     if (*(int*)val) {
       atomic_fetch_and(&fd_info[d].flags_, ~IO_FLAG_BLOCKING);
       assert(!(fd_info[d].flags_ & IO_FLAG_BLOCKING));
@@ -662,8 +674,8 @@ int close(int fd) {
     fibershim_close = (closeFnType)dlsym(RTLD_NEXT, "close");
   }
 
-  fiber_fd_closed(fd);
-  if (fd_info && fd < max_fd) {
+  if (fd_in_range(fd)) {
+    fiber_fd_closed(fd);
     fd_info[fd].flags_ = 0;
   }
   return fibershim_close(fd);
